@@ -71,6 +71,9 @@ SCRIPTS = [
     {'name': 'inputs', 'code': PRE + 'set_input(["4", "5"])\nstudent = run()\nassert_output(student, "9")\nqueue_input("7")\n'},
     {'name': 'scores', 'code': PRE + 'give_partial(0.25)\ncompliment("good start", score="+10%")\ngently("not yet", label="n1", score="-5%")\n'},
     {'name': 'correct', 'code': PRE + 'set_correct()\n'},
+    # the script resets the report itself (which also detaches the submission) and carries on
+    {'name': 'clear-report', 'code': PRE + 'explain("before the reset", label="r0")\nclear_report()\nsuppress("runtime")\n'
+     'gently("after the reset", label="r1", score="+15%")\n'},
     {'name': 'unit', 'code': PRE + 'unit_test("add", ((1, 2), 3), ((2, 3), 5), ((0, 0), 0), score="+30%", partial_credit=True)\n'},
     # the same instructor FILE NAME with different contents (ProgSnap style)
     {'name': 'samefile-a', 'file': 'shared_name.py', 'code': PRE + 'gently("script A", label="from_a")\n'},
@@ -111,7 +114,8 @@ SUBMISSIONS = [
     {'name': 'func-attr-use', 'files': {'answer.py': 'def add(a, b):\n    return a + b\ndef other():\n    return 1\nprint(add(1, 2))\nprint(other.calls + 1)\n'}},
     {'name': 'unused', 'files': {'answer.py': 'def add(a, b):\n    return a + b\nleftover = 5\nfor i in [1, 2]:\n    print(i + 5)\nprint(1)\n'}},
 ]
-ALWAYS = [(('pools-subclass', 'add-ok'), ('pools-c', 'add-ok')), (('pools-subclass', 'add-ok'), ('pools-d', 'add-ok')),
+ALWAYS = [(('clear-report', 'add-ok'), ('plain', 'runtime')), (('clear-report', 'runtime'), ('clear-report', 'runtime'), ('correct', 'add-ok')),
+          (('pools-subclass', 'add-ok'), ('pools-c', 'add-ok')), (('pools-subclass', 'add-ok'), ('pools-d', 'add-ok')),
           (('pools', 'add-ok'), ('pools-c', 'add-ok')), (('pools-subclass', 'add-wrong'), ('pools-b', 'add-ok')),
           (('tifa-settings', 'boolop'), ('plain', 'boolop')), (('tifa-settings', 'add-ok'), ('static+tifa', 'boolop')),
           (('tifa-settings', 'string-annotation'), ('plain', 'string-annotation')), (('tifa-settings', 'unused'), ('plain', 'unused')),
